@@ -525,7 +525,7 @@ ICLAMP_SIG = {"site": "mjx derivative.deriv_smooth_vel", "class": "clamped-actua
 def implicit_clamp_replay(ctx, M, states, c, x, sup):
     """C mjd_actuator_vel skips an actuator whose force is clamped by forcerange; MJX deriv_smooth_vel keeps gain_vel / bias_vel, so an implicitfast step
     of a saturated velocity / position servo differs.  exactly_this_class: every forward output agrees (1e-9), the actuator force sits on its forcerange
-    bound, and only the implicitfast next state differs.  Emitted under ICLAMP_SIG once registered; recorded in the evidence until then."""
+    bound, and only the implicitfast next state differs.  Repaired in /repo (1ffe69b25); the replay stays in the corpus and alarms under ICLAMP_SIG if the difference returns."""
     rec = {"registered": any(k.get("property") == "C43" and k.get("match") == ICLAMP_SIG for k in ctx.kf.get("findings", [])), "states": []}
     sup["implicit_clamp_replay"] = rec
     if "error" in c or "error" in x or "notimpl" in x:
@@ -540,8 +540,6 @@ def implicit_clamp_replay(ctx, M, states, c, x, sup):
         rec["states"].append({"forward_outputs_c_vs_mjx": float("%.3g" % pre), "actuator_force": sc["actuator_force"][0], "next_state_c_vs_mjx": float("%.3g" % dn),
                               "exactly_this_class": bool(exact and dn > 1e-6)})
         if dn > 1e-6:
-            if exact and not rec["registered"]:
-                continue
             ctx.violation("impl_violation", {"family": "implicit_clamped_servo", "mjcf": MM.to_xml(M), "state": states[si], "quantity": "next state (implicitfast)"},
                           expected="MJX next state equals the C engine's (1e-6 relative)", observed="relative difference %.3g" % dn, theorem=None,
                           signature=ICLAMP_SIG if exact else {"site": "mjx pipeline", "quantity": "next_qvel"},
